@@ -1,7 +1,7 @@
 (* C19 -- property theorems only: each is closed by [exact] of a lemma proved elsewhere (Conc/TPoolProofs.v);
    plus non-vacuity examples (concrete runs of the model that satisfy the theorems' premises). *)
 From Coq Require Import List Arith Bool.
-From Muscle Require Import Conc.TPool Conc.TPoolLemmas Conc.TPoolInv Conc.TPoolStep Conc.TPoolTrace Conc.TPoolProofs.
+From Muscle Require Import Conc.TPool Conc.TPoolLemmas Conc.TPoolInv Conc.TPoolStep Conc.TPoolTrace Conc.TPoolProofs Conc.TPoolProgress.
 Import ListNotations.
 
 (* Every Message handed to a handler was accepted before, each at most once and in submission order (the handled
@@ -61,6 +61,32 @@ Theorem C19_shutdown_no_deadlock : forall n ls s tr, run (init n) ls = Some (s, 
   (forall l s' ev, step s l = Some (s', ev) -> sd_measure s' <= sd_measure s).
 Proof. exact shutdown_no_deadlock. Qed.
 Print Assumptions C19_shutdown_no_deadlock.
+
+(* Different clients proceed in parallel up to the thread limit: until Shutdown() begins the threads working for a
+   client are exactly the (distinct) keys of _activeThreads, at most _maxThreadCount of them. *)
+Theorem C19_pool_parallel_bound : forall n ls s tr, run (init n) ls = Some (s, tr) -> s_shut s = false ->
+  NoDup (s_active s) /\ length (s_active s) <= s_max s /\
+  (forall t h c, tget t (s_thr s) = Some h -> th_client h = Some c -> In t (s_active s)) /\
+  (forall t, In t (s_active s) -> exists h c, tget t (s_thr s) = Some h /\ th_client h = Some c).
+Proof. exact pool_parallel_bound. Qed.
+Print Assumptions C19_pool_parallel_bound.
+
+(* Termination argument for "every accepted Message is handled" and "a blocked UnregisterClient() is woken": every step
+   of a pool thread (handler entry, handler return, batch-finished) strictly lowers [pool_work]; no transition other
+   than an accepted submission raises it (a submission by at most 4); it is positive while anything is outstanding.
+   With C19_pool_no_stuck: between two submissions at most [pool_work s] thread steps fit, one is always enabled while
+   something is outstanding, and nobody can disable it. *)
+Theorem C19_pool_work_step : forall n ls s tr, run (init n) ls = Some (s, tr) -> forall l s' ev, step s l = Some (s', ev) ->
+  (is_thread_label l = true -> pool_work s' < pool_work s) /\
+  (is_submit l = false -> pool_work s' <= pool_work s) /\
+  (is_submit l = true -> pool_work s' <= pool_work s + 4).
+Proof. exact pool_work_step. Qed.
+Print Assumptions C19_pool_work_step.
+
+Theorem C19_pool_work_pos : forall n ls s tr, run (init n) ls = Some (s, tr) -> s_shut s = false ->
+  forall c, outstanding s c = true -> 0 < pool_work s.
+Proof. exact pool_work_pos. Qed.
+Print Assumptions C19_pool_work_pos.
 
 (* None of the MASSERTs of ThreadPool.cpp can fire. *)
 Theorem C19_pool_no_assert : forall n ls s tr, run (init n) ls = Some (s, tr) -> s_bad s = false.
